@@ -532,6 +532,40 @@ fn ctor_case(ch: &mut Choices<'_>, st: &mut Stats) -> CaseResult {
             }
         }
     }
+    // repeated keys: which value wins is not stated, but whatever is built must be homogeneous
+    // and a homogeneous element list must be accepted
+    if elems.len() >= 2 {
+        let nk = 1 + ch.draw(elems.len() - 1);
+        let dup_keys: Vec<Vec<u8>> = (0..elems.len()).map(|i| keys[(i * 7 + i / 2) % nk].clone()).collect();
+        st.eval();
+        let res = catch(|| {
+            Map::try_from_iter::<wirefilter::TypeMismatchError, _>(et, dup_keys.iter().cloned().zip(lhs.clone()).map(|(k, v)| Ok((k.into_boxed_slice(), v))))
+        })
+        .map_err(|p| Fail::new("ctor-panic", format!("Map::try_from_iter with repeated keys panicked: {p}"), show()))?;
+        let show_dup = || {
+            let mut c = show();
+            c["map_keys"] = json!(dup_keys.iter().map(|k| show_bytes(k)).collect::<Vec<_>>());
+            c
+        };
+        match res {
+            Ok(m) => {
+                let v = LhsValue::Map(m);
+                if v.get_type() != MType::map(elem_t.clone()).to_engine() || !MVal::lhs_deep_well_typed(&v) {
+                    return Err(Fail::new(
+                        "ctor-accepts-heterogeneous",
+                        format!("Map::try_from_iter with repeated keys built a map of type {:?} that holds an element of another type; declared element type {}", v.get_type(), elem_t.show()),
+                        show_dup(),
+                    ));
+                }
+            }
+            Err(e) => {
+                if misfit.is_none() {
+                    return Err(Fail::new("ctor-rejects-homogeneous", format!("Map::try_from_iter with repeated keys rejected a homogeneous element list: {e}"), show_dup()));
+                }
+            }
+        }
+        st.class("ctor-map-with-repeated-keys");
+    }
     // classes
     match &misfit {
         None => st.class("ctor-homogeneous"),
@@ -1115,7 +1149,20 @@ impl Session<'_, '_, '_, '_> {
                     }
                     self.log.push(OpRec::BorrowEnd { ctx: idx });
                     m.tag = saved;
-                    if let Err(p) = catch(move || drop(guard)) {
+                    if self.ch.chance(1, 6) {
+                        // the scope is left by unwinding: the guard is dropped while a panic is in
+                        // flight (caught outside); the borrow still writes through
+                        let r = catch(move || {
+                            let _alive = guard;
+                            panic!("harness: leaving the borrow scope by unwinding");
+                        });
+                        match r {
+                            Err(p) if p.contains("leaving the borrow scope by unwinding") => {}
+                            Err(p) => return Err(self.fail("guard-drop-panic", p, Some((idx, &*m)))),
+                            Ok(()) => unreachable!(),
+                        }
+                        self.classes.insert("borrow-scope-left-by-unwinding");
+                    } else if let Err(p) = catch(move || drop(guard)) {
                         return Err(self.fail("guard-drop-panic", p, Some((idx, &*m))));
                     }
                 }
@@ -1536,7 +1583,7 @@ pub fn run(run: &Run) {
     run.assume("get_field_value / get_list_matcher with a reference of another scheme assert by design and are never called that way");
     run.assume("when both the field's scheme and the value's type are wrong either error variant is accepted");
     run.assume("the reference evaluator (eval.rs) gives the expected result of executions on the expected state; generated filters that do not parse are left out");
-    run.assume("Map::try_from_iter is only given distinct keys");
+    run.assume("Map::try_from_iter with repeated keys: only homogeneity of whatever is built (and acceptance of homogeneous lists) is asserted, not which value wins");
     let subs = subs();
     run_regressions(run, &subs);
     let n = run.tier.pick(60_000, 400_000);
